@@ -6,7 +6,7 @@
    of the internal tile c. *)
 From Coq Require Import ZArith List Bool.
 Import ListNotations.
-From MP Require Import Grid Grid_proofs TileSvc TileSvc_proofs.
+From MP Require Import Grid Grid_proofs TileSvc TileSvc_proofs MetaGrid MetaGrid_proofs.
 Local Open Scope Z_scope.
 
 (* WMTS (KVP and RESTful): for every grid that _matrix_sets does not skip, every advertised TileMatrix and every
@@ -175,3 +175,19 @@ Theorem kml_document_links_exact :
     exists hx hy hz, oh = Some (hx, hy, hz) /\
       exists c, served s srv (AKml hz hx hy) = Some c /\ tile_bbox_c (sg s) c = r.
 Proof. exact kml_document_links_exact_l. Qed.
+
+(* Content of the returned tile: the image stored for the tile of an address (any service), cut by TileSplitter out
+   of its meta tile (MetaGrid.v: buffered meta bbox, tile pattern), shows at every pixel (j, k) the upstream picture
+   sampled over the rectangle the CLIENT computes for the address from the capabilities - a picture that depends on
+   ground position only looks the same as if exactly that rectangle had been requested.
+   served_content_partial: proved for meta tiles whose buffer is not cut at the grid border (no_buffer_cut, the
+   hypothesis of C04's meta_equals_single); the cut / overhanging case (negative crop offsets) is validated by the
+   stored_pixel correspondence and the pixel oracle only. *)
+Theorem served_content_partial :
+  forall s srv a r c m q j k,
+    mg_grid m = sg s -> mwf m -> 0 < q ->
+    addr_ok s srv a -> client_rect s srv a = Some r -> served s srv a = Some c ->
+    (let '(cx, cy, cz) := c in no_buffer_cut m cx cy cz) ->
+    0 <= j < tw (sg s) -> 0 <= k < th (sg s) ->
+    model_pixel m q HowMeta c j k = Some (stored_pixel (sg s) q r (tw (sg s), th (sg s)) (0, 0) j k).
+Proof. exact served_content_exact_l. Qed.
